@@ -5,7 +5,7 @@
    COMPLETELY over the regenerated built-in tables below).
    The transformation pass (implicit tag, attribute merge, lorem header, xsl, label, BEM) returns `res`
    since the BEM addon is modelled (its two raise sites are explicit Internal results); it is proved
-   total in proofs/BemProofs.v (transform_list_ok). *)
+   total in proofs/BemProofs.v (transform_forest_ok); the lorem draws in proofs/LoremFill.v. *)
 From Coq Require Import List Bool Lia Arith ZArith.
 From Emmet Require Import lib.Base model.MarkupTokenizer model.MarkupParser model.MarkupConvert model.MarkupResolve
      gen.GenMarkupSnippets proofs.SafeConvert.
